@@ -83,6 +83,11 @@ CLAIMED = {
             "After every commit the observer's group context, roster and exported tree must equal the members' canonical record; it must accept every genuine public proposal and commit in DS order; ciphertexts of epochs inside [epoch - jitter, epoch] must be let through and older ones rejected (checked semantically, and the simulator is built with overflow checks so arithmetic wrap is a panic); bit flips and truncations of public messages must be rejected wherever the change is checkable without group secrets (i.e. outside the confirmation and membership tags) and leave the observer's snapshot unchanged; snapshot -> bytes -> load_group must give an identical observer; Add / Remove proposals it signs as a listed external sender must be accepted and committed by members (C01 oracle on the resulting epochs). Never a panic.",
             "trusted: c13::public_layout to decide which byte ranges an observer can check; public (unencrypted) handshake configuration only, because an observer cannot follow encrypted handshake traffic",
             "DESIGN.md §6.C16"),
+    "C17": ("exploration",
+            "deterministic simulation: old-group histories (sparse trees, identity changes) end in a re-init commit; successor creation and joining is then driven with the member set equal / strict subset / superset / one identity replaced, in shuffled order, with group-id and cipher-suite changes; branches are created at seeded points from subsets and supersets of the current members and joined by members at the same and at another epoch and by outsiders",
+            "After the re-init commit every member's old group must refuse to build further commits (and the simulated delivery service accepts none). ReinitClient::commit must succeed iff the key packages belong to exactly the old members; on success every old member joins through ReinitClient::join with a state (context, tree, authenticator) equal to the creator's at epoch 1, and a party without the old group state cannot join with the same Welcome. Group::branch must succeed iff the chosen parties are current members; each of them at the creator's epoch joins through join_subgroup with equal state; a member sitting at another epoch (other resumption secret) and an outsider must be refused.",
+            "trusted: canonical rosters of the old group; mismatched-Welcome variants beyond 'no old state' and 'resumption secret of another epoch' are not generated",
+            "DESIGN.md §6.C17"),
 }
 
 NOT_APPLICABLE = {
